@@ -1,2 +1,4 @@
+pub mod conway;
 pub mod dsym;
 pub mod groups;
+pub mod pi1;
